@@ -20,7 +20,22 @@ def main():
     mod = importlib.import_module("props.%s" % pid)
     ctx = core.Ctx(pid, a.tier, seed)
     if a.replay:
-        sys.exit(mod.replay(ctx, a.replay))
+        # a property module may replay the single recorded case itself (exit 1 = still failing, 0 = no longer fails); when it only
+        # prints the case (2), the recorded run is repeated: same seed and tier against the current tree, without rewriting evidence
+        rc = mod.replay(ctx, a.replay)
+        if rc in (0, 1):
+            sys.exit(rc)
+        import json
+        rp = json.load(open(a.replay))
+        ctx = core.Ctx(pid, rp.get("tier", a.tier), int(rp.get("seed", seed)))
+        ctx.write_evidence = False
+        print("replaying the recorded run: property=%s seed=%s tier=%s (%s)" % (pid, ctx.seed, ctx.tier, rp.get("what", "")[:200]))
+        try:
+            mod.run(ctx)
+        except Exception:  # noqa
+            print(traceback.format_exc())
+            sys.exit(1)
+        sys.exit(ctx.finish())
     try:
         mod.run(ctx)
     except Exception:  # a crash of the machinery must never look like a pass
